@@ -3,7 +3,8 @@
 //@ requires-unit: schema_helper
 //@ anchor: serde_avro_fast/src/object_container_file_encoding/reader/mod.rs :: pub fn deserialize_seed_next<'de, S: DeserializeSeed<'de>>\(
 //@ anchor: serde_avro_fast/src/object_container_file_encoding/reader/mod.rs :: fn deserialize_next_inner<'de, S: DeserializeSeed<'de>>\(
-//@ anchor: serde_avro_fast/src/de/read/take.rs :: fn take\(self, block_size: usize\) -> Result<Self::Take, DeError> \{\n\t\tif block_size > self.slice.len\(\)
+//@ anchor: serde_avro_fast/src/de/read/take.rs :: {2} fn take\(self, block_size: usize\) -> Result<Self::Take, DeError> \{
+//@ anchor: serde_avro_fast/src/de/read/take.rs :: impl<'de> Take for SliceRead<'de> \{
 //@ anchor: serde_avro_fast/src/de/read/take.rs :: impl<'de> IntoLeftAfterTake for SliceReadTake<'de> \{
 //@ include: spec
 //@ include: common
